@@ -301,6 +301,13 @@ func TestC07Model(t *testing.T) {
 		var texts []string
 		for i := 0; i < n; i++ {
 			p := genProg(rt, rapid.IntRange(1, 4).Draw(rt, "depth"), false)
+			if rapid.Bool().Draw(rt, "fewerparens") {
+				// written the way people write: `c ? a : b, $x = 1, $x` - grouping by the grammar alone
+				p = fewerParens(p)
+				if p.Kind == "paren" {
+					p = p.Kids[0]
+				}
+			}
 			c.Programs = append(c.Programs, p)
 			texts = append(texts, p.Text())
 		}
@@ -527,4 +534,49 @@ func checkProgsNoMap(c progCase, r *formula.Runner, env *miniEnv) (string, bool)
 		}
 	}
 	return "", false
+}
+
+// fewerParens copies a generated program without the parentheses the grammar
+// does not need (the left side of an assignment keeps its own: `($a) = e` is a
+// forbidden target, not a spelling of `$a = e`).
+func fewerParens(n *ref.Node) *ref.Node {
+	c := *n
+	c.Kids = nil
+	for i, k := range n.Kids {
+		k = fewerParens(k)
+		need := -1 // -1: keep as written
+		switch n.Kind {
+		case "bin":
+			switch {
+			case n.Op == ",":
+				need = []int{ref.LvComma, ref.LvAssign}[i]
+			case n.Op == "=":
+				if i == 1 {
+					need = ref.LvAssign
+				}
+			default:
+				need = ref.BinLevel[n.Op] + i
+			}
+		case "cond":
+			need = []int{2, ref.LvAssign, ref.LvAssign}[i]
+		case "arr":
+			need = ref.LvAssign
+		case "call":
+			need = ref.LvAssign
+			if i == 0 {
+				need = ref.LvPostfix
+			}
+		case "pre", "typeof":
+			need = ref.LvUnary
+		case "sel":
+			need = ref.LvPostfix
+		case "paren":
+			need = ref.LvComma
+		}
+		if need >= 0 && k.Kind == "paren" && len(k.Kids) == 1 && k.Kids[0].Level() >= need {
+			k = k.Kids[0]
+		}
+		c.Kids = append(c.Kids, k)
+	}
+	return &c
 }
